@@ -131,6 +131,11 @@ type Result struct {
 	Switches map[string]int `json:"switches,omitempty"`
 	Probes   map[string]int `json:"probes,omitempty"`
 	Trace    []string       `json:"trace,omitempty"`
+	// RaceAtEnd is the process-wide race report count at the moment the
+	// scheduler stopped. What is reported afterwards comes from goroutines
+	// that run on unscheduled while the bubble is torn down and is not
+	// replayable.
+	RaceAtEnd int `json:"race_at_end"`
 	// BubblePanic is set when the bubble ended with a synctest panic other
 	// than the expected "blocked goroutines remain" one.
 	BubblePanic string `json:"bubble_panic,omitempty"`
@@ -208,6 +213,7 @@ type Sim struct {
 	res       Result
 	dev       map[string]string
 	pctPoints []int64
+	lowPrio   int64
 	switches  map[string]int
 	trace     []string
 	start     time.Time
@@ -725,6 +731,15 @@ func (s *Sim) handle(m msg) {
 		m.t.state = stSleeping
 		m.t.site = m.site
 		m.t.wake = m.wake
+		if s.cfg.Mode == "pct" {
+			// PCT runs the highest priority strictly and has no fairness: a
+			// goroutine that polls (select-default-sleep) at a high priority
+			// would starve everything else for ever once the clock may be
+			// advanced. As usual for PCT, a goroutine that sleeps drops below
+			// everybody else.
+			s.lowPrio--
+			m.t.prio = s.lowPrio
+		}
 	case mDone:
 		m.t.state = stDone
 		if m.t.isRoot {
@@ -1018,6 +1033,7 @@ func Run(t *testing.T, cfg Config, root func()) (res Result) {
 		}
 		sortInt64(s.pctPoints)
 	}
+	s.lowPrio = -1000
 	s.res.Hash = fnvOff
 	s.res.ContendedHash = fnvOff
 	tabReset()
@@ -1051,6 +1067,7 @@ func Run(t *testing.T, cfg Config, root func()) (res Result) {
 			s.handle(msg{kind: mNew, t: rootTask, site: "root"})
 			go s.taskMain(rootTask, root)
 			outcome = s.schedule()
+			s.res.RaceAtEnd = RaceErrors()
 			s.res.SimTimeNs = int64(time.Since(s.start))
 			s.finish()
 			setCur(nil)
